@@ -107,6 +107,11 @@ func (b *builder) replace(r *ast.ReturnStmt, g []guard, dry bool) ([]ast.Stmt, i
 	es := r.Results
 	mkAssign := func() ast.Stmt {
 		var lhs []ast.Expr
+		if !dry {
+			for i := range m.lhs {
+				b.varAssigned[i] = true
+			}
+		}
 		for _, l := range m.lhs {
 			if id, ok := l.(*ast.Ident); ok {
 				lhs = append(lhs, ast.NewIdent(id.Name))
@@ -204,6 +209,63 @@ func (b *builder) replace(r *ast.ReturnStmt, g []guard, dry bool) ([]ast.Stmt, i
 		}
 		return out
 	}
+	// mkLive: the assignment restricted to the variables that are read after the test of the results
+	var liveBranch []ast.Stmt
+	mkLive := func() []ast.Stmt {
+		anyDead := false
+		inBranch := b.countLHSUses(liveBranch)
+		isDead := func(i int) bool { return i < len(m.dead) && m.dead[i] && inBranch[i] == 0 }
+		for i := range m.lhs {
+			if isDead(i) {
+				anyDead = true
+			}
+		}
+		if !anyDead || len(es) != len(m.lhs) {
+			return split(mkAssign())
+		}
+		var out []ast.Stmt
+		for i, l := range m.lhs {
+			if isDead(i) {
+				if !simpleExpr(nil, es[i]) {
+					out = append(out, &ast.AssignStmt{Lhs: []ast.Expr{ast.NewIdent("_")}, Tok: token.ASSIGN, Rhs: []ast.Expr{es[i]}, TokPos: pos})
+				}
+				continue
+			}
+			id, ok := l.(*ast.Ident)
+			if !ok {
+				return split(mkAssign())
+			}
+			tok := b.useTok
+			if tok == token.DEFINE && b.c.info.Defs[id] == nil {
+				tok = token.ASSIGN
+			}
+			rhs := es[i]
+			if tok == token.DEFINE {
+				if def := b.c.info.Defs[id]; def != nil {
+					if et := b.c.typeOf(es[i]); et == nil || !types.Identical(et, def.Type()) {
+						te := typeExpr(def.Type(), b.c.pkg.Types, b.c.file, b.c.info)
+						if te == nil {
+							b.fail = "the type of " + id.Name + " cannot be written"
+							return nil
+						}
+						if _, isPtr := te.(*ast.StarExpr); isPtr {
+							te = &ast.ParenExpr{X: te}
+						}
+						rhs = &ast.CallExpr{Fun: te, Args: []ast.Expr{es[i]}}
+					}
+				}
+			}
+			if !dry {
+				b.varAssigned[i] = true
+				b.assignsEmitted++
+			}
+			if r, ok := unparen(rhs).(*ast.Ident); ok && r.Name == id.Name && tok == token.ASSIGN {
+				continue
+			}
+			out = append(out, &ast.AssignStmt{Lhs: []ast.Expr{ast.NewIdent(id.Name)}, Tok: tok, Rhs: []ast.Expr{rhs}, TokPos: pos})
+		}
+		return out
+	}
 	if m.consumer == nil {
 		return split(mkAssign()), retExit
 	}
@@ -223,8 +285,9 @@ func (b *builder) replace(r *ast.ReturnStmt, g []guard, dry bool) ([]ast.Stmt, i
 	}
 	if !terminatesList(branch) {
 		out := []ast.Stmt{}
+		liveBranch = branch
 		if m.tmpName == "" {
-			out = append(out, split(mkAssign())...)
+			out = append(out, mkLive()...)
 		}
 		if dry {
 			return out, retExit
